@@ -410,6 +410,9 @@ static const struct inv_s invs[] = {
 	{"dconv", "stdin", {"-f", "%j %a", NULL}, IN_LINES1},
 	{"dconv", "stdin-time-base", {"--base", "2012-06-15", "-S", "-f", "%T|%s", NULL}, IN_TIMES},
 	{"dconv", "invalid", {"2012-02-30", "foo", "-f", "%F", NULL}, NULL},
+	/* a complete time given with an explicit format and no --base: the parser asks for the base (= now) and must not use it */
+	{"dconv", "time-fmt-nobase", {"-i", "%H:%M:%S", "12:34:56", "-f", "%T", NULL}, NULL},
+	{"dconv", "time-fmt-nobase-12h", {"-i", "%I:%M %p", "01:34 PM", "-f", "%H:%M:%S", NULL}, NULL},
 	/* ---- dadd ---- */
 	{"dadd", "day", {"2012-03-04", "+1d", NULL}, NULL},
 	{"dadd", "month-end", {"2012-01-31", "+1mo", "-f", "%F %a", NULL}, NULL},
@@ -429,6 +432,7 @@ static const struct inv_s invs[] = {
 	{"dadd", "locale-in", {"--from-locale", "de_DE", "-i", "%d %b %Y", "01 Dez 2012", "+1d", NULL}, NULL},
 	{"dadd", "locale-both", {"--from-locale", "de_DE", "--locale", "fr_FR", "-i", "%d %B %Y", "-f", "%d %b %Y", "01 Dezember 2012", "+1d", NULL}, NULL},
 	{"dadd", "dur-only-args", {"2012-03-04", "+1d", "+1w", "-1mo", NULL}, NULL},
+	{"dadd", "time-fmt-nobase", {"-i", "%H:%M:%S", "12:34:56", "+90m", NULL}, NULL},
 	/* ---- ddiff ---- */
 	{"ddiff", "days", {"2012-03-04", "2012-04-05", NULL}, NULL},
 	{"ddiff", "md", {"2012-03-04", "2013-04-05", "-f", "%y %m %d", NULL}, NULL},
@@ -443,6 +447,7 @@ static const struct inv_s invs[] = {
 	{"ddiff", "from-zone", {"--from-zone", "Europe/Berlin", "2012-03-24T12:00:00", "2012-03-25T12:00:00", "-f", "%H", NULL}, NULL},
 	{"ddiff", "locale-in", {"--from-locale", "de_DE", "-i", "%d %b %Y", "01 Dez 2012", "15 M\xc3\xa4r 2013", NULL}, NULL},
 	{"ddiff", "ywd", {"2012-W09-5", "2012-W11-1", NULL}, NULL},
+	{"ddiff", "time-fmt-nobase", {"-i", "%H:%M:%S", "10:00:00", "12:30:00", "-f", "%S", NULL}, NULL},
 	/* ---- dgrep ---- */
 	{"dgrep", "ge", {">=2012-03-04", NULL}, IN_LINES1},
 	{"dgrep", "lt-opt", {"--lt", "2012-03-04", NULL}, IN_LINES1},
@@ -456,6 +461,7 @@ static const struct inv_s invs[] = {
 	{"dgrep", "zones", {"--from-zone", "Europe/Berlin", "--zone", "America/New_York", ">=2012-03-04T07:00:00", NULL},
 	 "2012-03-04T12:00:00\n2012-03-04T13:00:01\n2012-03-04T14:00:00\n"},
 	{"dgrep", "dt", {"<=2012-03-04T00:00:00", NULL}, IN_LINES1},
+	{"dgrep", "time-fmt-nobase", {"-i", "%H:%M:%S", ">=12:00:00", NULL}, IN_TIMES},
 	/* ---- dround ---- */
 	{"dround", "wday", {"2012-03-04", "Mon", NULL}, NULL},
 	{"dround", "wday-next", {"-n", "2012-03-05", "Mon", NULL}, NULL},
@@ -472,6 +478,7 @@ static const struct inv_s invs[] = {
 	{"dround", "stdin", {"Sat", NULL}, IN_LINES1},
 	{"dround", "locale-out", {"--locale", "de_DE", "-f", "%A %d %B", "2012-03-04", "Mon", NULL}, NULL},
 	{"dround", "locale-both", {"--from-locale", "fr_FR", "--locale", "de_DE", "-i", "%d %B %Y", "-f", "%A %d %b %Y", "4 mars 2012", "Mon", NULL}, NULL},
+	{"dround", "time-fmt-nobase", {"-i", "%H:%M:%S", "12:34:56", "30m", NULL}, NULL},
 	/* ---- dseq ---- */
 	{"dseq", "days", {"2012-02-27", "2012-03-02", NULL}, NULL},
 	{"dseq", "weeks", {"2012-03-01", "1w", "2012-04-01", "-f", "%F %a", NULL}, NULL},
@@ -488,6 +495,7 @@ static const struct inv_s invs[] = {
 	{"dseq", "locale-out", {"--locale", "de_DE", "-f", "%a %d %b", "2012-03-01", "2012-03-07", NULL}, NULL},
 	{"dseq", "locale-both", {"--from-locale", "de_DE", "--locale", "fr_FR", "-i", "%d %B %Y", "-f", "%a %d %b %Y", "01 Dezember 2012", "03 Dezember 2012", NULL}, NULL},
 	{"dseq", "ywd", {"2012-W09-5", "2012-W10-2", NULL}, NULL},
+	{"dseq", "time-fmt-nobase", {"-i", "%H:%M:%S", "10:00:00", "30m", "11:30:00", NULL}, NULL},
 	/* ---- dtest ---- */
 	{"dtest", "gt-true", {"2012-03-04", "--gt", "2012-03-03", NULL}, NULL},
 	{"dtest", "gt-false", {"2012-03-03", "--gt", "2012-03-04", NULL}, NULL},
@@ -501,6 +509,7 @@ static const struct inv_s invs[] = {
 	{"dtest", "md-base", {"--base", "2012-06-15", "-i", "%m-%d", "03-04", "--ot", "12-31", NULL}, NULL},
 	{"dtest", "locale-in", {"--from-locale", "de_DE", "-i", "%d %b %Y", "01 Dez 2012", "--gt", "15 M\xc3\xa4r 2012", NULL}, NULL},
 	{"dtest", "from-zone", {"--from-zone", "Europe/Berlin", "2012-03-04T12:00:00", "--ne", "2012-03-04T12:00:00", NULL}, NULL},
+	{"dtest", "time-fmt-nobase", {"-i", "%H:%M:%S", "12:00:00", "--lt", "13:00:00", NULL}, NULL},
 	/* ---- dzone ---- */
 	{"dzone", "one", {"Europe/Berlin", "2012-03-04T12:00:00", NULL}, NULL},
 	{"dzone", "matrix", {"Europe/Berlin", "America/New_York", "Asia/Tokyo", "2012-03-04T12:00:00", "2012-07-04T23:30:00", NULL}, NULL},
@@ -520,6 +529,7 @@ static const struct inv_s invs[] = {
 	{"dsort", "y2-base", {"--base", "2012-06-15", "-i", "%y%m%d", NULL}, IN_SORT_Y},
 	{"dsort", "locale-in", {"--from-locale", "de_DE", "-i", "%d %b %Y", NULL}, IN_DE},
 	{"dsort", "from-zone", {"--from-zone", "Europe/Berlin", NULL}, "2012-03-04T12:00:00 b\n2012-03-04T11:00:00 a\n"},
+	{"dsort", "time-fmt-nobase", {"-i", "%H:%M:%S", NULL}, IN_SORT_T},
 };
 #define NINV_ALL	((int)(sizeof(invs) / sizeof(*invs)))
 
@@ -782,22 +792,38 @@ run_inv(const struct inv_s *iv, int c, int exec, struct run_s *out)
 		tw_cnt[i] = 0;
 	}
 	++*c_eval;
-#if !defined C20_EXEC_ONLY
-	if (!exec) {
-		if (iv->in) {
-			o.stdin_data = iv->in;
-			o.stdin_len = strlen(iv->in);
+	/* a run that hits the wall-clock limit is repeated once with ten times the limit before
+	 * it counts as an observation (the machine may be busy) */
+	for (int attempt = 0; attempt < 2; attempt++) {
+		if (attempt) {
+			EX_CTR(c_retry, "runs_repeated_with_10x_time_limit");
+			++*c_retry;
+			fs_free(&out->r);
+			o.timeout_s = 100;
+			for (int i = 0; i < NTWALL; i++) {
+				tw_cnt[i] = 0;
+			}
 		}
-		c20_clk_on = 1;
-		c20_clk = clk_vals[CFG_CLK(c)];
-		fs_run(c20_inproc_main, ac, av, &o, &out->r);
-		c20_clk_on = 0;
-	} else
+#if !defined C20_EXEC_ONLY
+		if (!exec) {
+			if (iv->in) {
+				o.stdin_data = iv->in;
+				o.stdin_len = strlen(iv->in);
+			}
+			c20_clk_on = 1;
+			c20_clk = clk_vals[CFG_CLK(c)];
+			fs_run(c20_inproc_main, ac, av, &o, &out->r);
+			c20_clk_on = 0;
+		} else
 #endif
-	{
-		(void)exec;
-		exec_stdin = iv->in;
-		fs_run(c20_exec_main, ac, av, &o, &out->r);
+		{
+			(void)exec;
+			exec_stdin = iv->in;
+			fs_run(c20_exec_main, ac, av, &o, &out->r);
+		}
+		if (!out->r.timed_out) {
+			break;
+		}
 	}
 	for (int i = 0; i < NTWALL; i++) {
 		out->tw[i] = tw_cnt[i];
@@ -1088,7 +1114,7 @@ main(int argc, char *argv[])
 		return ex_replay_result(do_inv(k, c, 1) != 0, "%s %s configuration %d", invs[k].tool, invs[k].label, c);
 	}
 
-	ex_meta("rule", "tool %s: every invocation of a fixed list (fully specified inputs, or underspecified inputs together with --base: "
+	ex_meta("rule", "tool %s: every invocation of a fixed list (fully specified inputs incl. complete times of day, or underspecified inputs together with --base: "
 		"%%y, %%_y, month-day, day, time-only) x every TZ value x every joint setting of (LANG, LC_ALL, LC_TIME) x every system clock reading; "
 		"the tool's main() runs in a forked child with the harness's clock and a cleared environment (dsort: the real binary, environment only). "
 		"Oracle: stdout and exit status/signal equal those of the reference configuration (TZ, LANG, LC_* unset, clock 951782400); class key names the "
